@@ -217,6 +217,32 @@ def isqrt_exact(n):
 FAMILY_CODE = {"EP_BN": 1}
 
 
+def extract_ed(incdirs):
+    """twisted Edwards sets: the case table of ed_param_set and its string constants (preprocessed with the configuration's relic_conf.h)"""
+    ed_c = pp(os.path.join(REPO, "src/ed/relic_ed_param.c"), incdirs)
+    hdr = pp(os.path.join(REPO, "include/relic_ed.h"), incdirs)
+    estr = dict(re.findall(r'^#define (\w+)\s+"([0-9A-Fa-f]*)"$', ed_c, flags=re.M))
+    m = re.search(r"void ed_param_set\(int param\) \{(.*?)\n\}", ed_c, flags=re.S)
+    if not m:
+        raise ParamError("ed_param_set not found")
+    out = {}
+    for cm in re.finditer(r"case (\w+):\s*ASSIGN_ED\((\w+), (\w+)\);", m.group(1)):
+        name, cname, fname = cm.groups()
+        if name != cname:
+            raise ParamError("case %s assigns %s" % (name, cname))
+        em = re.search(r"\b%s = (\d+)" % name, hdr)
+        if not em:
+            raise ParamError("enumerator %s not found in relic_ed.h" % name)
+        c = {"field": fname, "id": int(em.group(1))}
+        for k in ("A", "D", "X", "Y", "R", "H"):
+            key = "%s_%s" % (name, k)
+            if key not in estr:
+                raise ParamError("missing constant %s" % key)
+            c[k] = int(estr[key], 16)
+        out[name] = c
+    return out
+
+
 def _field_rows(fields):
     rows = []
     for n, f in sorted(fields.items()):
@@ -250,7 +276,7 @@ def _curve_rows(fields, curves):
     return rows
 
 
-def write_lean(fields, curves, enums, out_path, extra_fields=None, extra_curves=None):
+def write_lean(fields, curves, enums, out_path, extra_fields=None, extra_curves=None, ed_curves=None):
     """`fields` / `curves`: the sets selectable in the pinned (base) configuration; `extraFields` / `extraCurves`: the sets selectable in the
     other verified configurations (EXTRA_CFGS), extracted with those configurations' relic_conf.h"""
     extra_fields, extra_curves = extra_fields or {}, extra_curves or {}
@@ -268,6 +294,11 @@ def write_lean(fields, curves, enums, out_path, extra_fields=None, extra_curves=
     L.append("]\n")
     L.append("def extraCurves : List CurveParam := [")
     L.append(",\n".join(_curve_rows(extra_fields, extra_curves)))
+    L.append("]\n")
+    L.append("/-- twisted Edwards parameter sets (src/ed/relic_ed_param.c, every configuration above) -/")
+    L.append("def edCurves : List EdParam := [")
+    L.append(",\n".join('  { name := "%s", id := %d, field := "%s", a := 0x%x, d := 0x%x, gx := 0x%x, gy := 0x%x, r := 0x%x, h := 0x%x }' % (
+        n, c["id"], c["field"], c["A"], c["D"], c["X"], c["Y"], c["R"], c["H"]) for n, c in sorted((ed_curves or {}).items())))
     L.append("]\n")
     L.append("end Relic.Gen.Params")
     os.makedirs(os.path.dirname(out_path), exist_ok=True)
@@ -346,6 +377,7 @@ def generate(base_build_dir, out_path=None):
         fields, curves, enums = extract(inc)
         # the other verified configurations: the same two switch statements preprocessed with their relic_conf.h
         xf, xc, ids, xfail = {}, {}, {"base": sorted(c["id"] for c in curves.values())}, []
+        eds = extract_ed(inc)
         sys.path.insert(0, TOOLS)
         import relicbuild as rb
         for cfg in EXTRA_CFGS:
@@ -361,13 +393,18 @@ def generate(base_build_dir, out_path=None):
             for n, c in c2.items():
                 if n not in curves:
                     xc[n] = c
-        write_lean(fields, curves, enums, out_path, xf, xc)
+            eds.update(extract_ed([os.path.join(b, "include")] + inc[1:]))
+        write_lean(fields, curves, enums, out_path, xf, xc, eds)
         __import__("relicbuild").write_if_changed(ids_path, json.dumps(ids, sort_keys=True) + "\n")
         allf = dict(fields); allf.update(xf)
         allc = dict(curves); allc.update(xc)
-        cert_fail = write_certs(needed_primes(allf, allc), os.path.join(os.path.dirname(out_path), "Certs.lean"))
+        for n, c in eds.items():
+            if c["field"] not in allf:
+                raise ParamError("Edwards set %s uses field %s which no extracted configuration selects" % (n, c["field"]))
+        cert_fail = write_certs(sorted(set(needed_primes(allf, allc)) | {c["R"] for c in eds.values()}), os.path.join(os.path.dirname(out_path), "Certs.lean"))
         obl = [{"c_function": "fp_param_set case " + n, "ok": True} for n in sorted(allf)] + \
-              [{"c_function": "ep_param_set case " + n, "ok": True} for n in sorted(allc)]
+              [{"c_function": "ep_param_set case " + n, "ok": True} for n in sorted(allc)] + \
+              [{"c_function": "ed_param_set case " + n, "ok": True} for n in sorted(eds)]
         return {"obligations": obl, "failures": cert_fail + xfail, "fields": allf, "curves": allc}
     except ParamError as e:
         # keep the Lean library buildable: an empty table makes every per-set theorem vacuous, the failure is reported
